@@ -69,3 +69,6 @@ Proof.
   - destruct a; reflexivity.
   - apply IH.
 Qed.
+
+Lemma nth_map_lt {A B} (g : A -> B) l n da db : n < length l -> nth n (map g l) db = g (nth n l da).
+Proof. intro H. rewrite (nth_indep _ db (g da)) by (rewrite map_length; exact H). apply map_nth. Qed.
